@@ -71,6 +71,61 @@ def local_cases(base, rnd, problems):
                 problems.append({'backend': 'local', 'problem': f'{s.calls} attempts > max_tries'})
         if be.exists('obj3') or [x for x in be.list_files('') if 'obj3' in x]:
             problems.append({'backend': 'local', 'problem': 'half-written object visible after persistent failure'})
+        # a fault AFTER the last byte was copied: the rename of the temporary (EBUSY / a Windows PermissionError) or the close
+        # (ENOSPC on flush) fails once or twice; the retry must store the whole payload again
+        import pathlib
+        import errno as _errno
+        for where in ('rename', 'close'):
+            for k in (1, 2):
+                left = {'n': k}
+                real_replace = pathlib.Path.replace
+                real_open = pathlib.Path.open
+
+                def replace(self, target, left=left):
+                    if where == 'rename' and left['n'] > 0 and str(target).endswith('obj4'):
+                        left['n'] -= 1
+                        raise OSError(_errno.EBUSY, 'Device or resource busy')
+                    return real_replace(self, target)
+
+                class ClosingFails:
+                    def __init__(self, f):
+                        self._f = f
+
+                    def __getattr__(self, name):
+                        return getattr(self._f, name)
+
+                    def __enter__(self):
+                        self._f.__enter__()
+                        return self
+
+                    def __exit__(self, *a):
+                        self._f.__exit__(*a)
+                        if a[0] is None and left['n'] > 0:
+                            left['n'] -= 1
+                            raise OSError(_errno.ENOSPC, 'No space left on device')
+                        return False
+
+                def open_(self, *a, **kw):
+                    f = real_open(self, *a, **kw)
+                    if where == 'close' and str(self).endswith('.tmp') and 'obj4' in str(self) and a and 'w' in a[0]:
+                        return ClosingFails(f)
+                    return f
+
+                pathlib.Path.replace, pathlib.Path.open = replace, open_
+                n += 1
+                try:
+                    be.upload('obj4', b'old contents')
+                    be.upload_stream('obj4', io.BytesIO(data), len(data), CHUNK)
+                    got = be.download('obj4')
+                    if got != data:
+                        problems.append({'backend': 'local', 'op': 'upload_stream', 'fault': f'{k} transient failure(s) of the {where} after the copy', 'size': size,
+                                         'problem': 'stored bytes differ (stream not rewound?)', 'got': len(got)})
+                    if [x for x in (base / 'lrepo').rglob('*.tmp')]:
+                        problems.append({'backend': 'local', 'op': 'upload_stream', 'fault': f'{where} after the copy', 'problem': 'temporary left behind'})
+                except OSError as e:
+                    problems.append({'backend': 'local', 'op': 'upload_stream', 'fault': f'{k} transient failure(s) of the {where} after the copy', 'problem': f'not masked: {e}'})
+                finally:
+                    pathlib.Path.replace, pathlib.Path.open = real_replace, real_open
     return n
 
 
@@ -219,7 +274,7 @@ def command_level_cases(base, problems):
     from replicat.repository import Repository
     from replicat.backends.local import Local
     n = 0
-    for kind in ('persistent', 'transient'):
+    for kind in ('persistent', 'transient', 'transient_rate_limited'):
         n += 1
         root = base / f'cmd_{kind}'
         (root / 'src').mkdir(parents=True)
@@ -236,12 +291,13 @@ def command_level_cases(base, problems):
             @staticmethod
             def copyfileobj(src, dst, *a, **k):
                 key = getattr(dst, 'name', id(dst))
-                if kind == 'transient':
-                    # every object: its first two attempts fail after a partial write
+                if kind.startswith('transient'):
+                    # every object: its first two attempts fail after one block of the source has been consumed and written
                     base_name = os.path.basename(str(key))[:200]          # (the random suffix of the temporary may itself contain '_')
                     per_call[base_name] = per_call.get(base_name, 0) + 1
                     if per_call[base_name] <= 2:
-                        dst.write(b'part')
+                        length = k.get('length', a[0] if a else 16)
+                        dst.write(src.read(min(int(length), 16)))
                         raise OSError(errno.ENOSPC, 'No space left on device')
                     return real_copy(src, dst, *a, **k)
                 dst.write(b'part')
@@ -256,7 +312,7 @@ def command_level_cases(base, problems):
                 await r.unlock()
                 local_mod.shutil = FakeShutil()
                 try:
-                    await asyncio.wait_for(r.snapshot(paths=[root / 'src']), 40)
+                    await asyncio.wait_for(r.snapshot(paths=[root / 'src'], rate_limit=(10 ** 7 if kind.endswith('rate_limited') else None)), 40)
                     outcome['result'] = 'ok'
                 except asyncio.TimeoutError:
                     outcome['result'] = 'hang'
@@ -278,7 +334,7 @@ def command_level_cases(base, problems):
             return n, True
         if kind == 'persistent' and not outcome.get('result', '').startswith('error'):
             problems.append({'level': 'command', 'fault': kind, 'problem': 'a persistent upload fault did not surface', 'outcome': outcome.get('result')})
-        if kind == 'transient':
+        if kind.startswith('transient'):
             rp = lib.restored_path(root / 'out', str((root / 'src' / 'f').resolve()))
             if outcome.get('result') != 'ok' or not rp.exists() or rp.read_bytes() != data:
                 problems.append({'level': 'command', 'fault': kind, 'problem': 'a transient upload fault within the retry budget was not masked', 'outcome': outcome.get('result'), 'tb': outcome.get('tb')})
